@@ -63,6 +63,13 @@ func TestC18(t *testing.T) {
 			cat = append(cat, c18case{Interval: iv, Burst: b, Pattern: "failing-retries"})
 		}
 	}
+	// the start-up Synchronization runs of a hook with several ungrouped kubernetes bindings are executions
+	// of the hook like any other
+	for _, iv := range []string{"1s", "3s"} {
+		for _, b := range []int{1, 2} {
+			cat = append(cat, c18case{Interval: iv, Burst: b, Pattern: "startup-syncs"})
+		}
+	}
 	cat = append(cat, c18case{NoLimit: true, Pattern: "burst"}, c18case{NoLimit: true, Pattern: "burst", TwoQ: true})
 	n := e.Pick(len(cat), len(cat)*60)
 	vlib.RunCases(t, "C18", "rate", n, func(c *vlib.Case) vlib.Result {
@@ -88,6 +95,14 @@ func c18run(c *vlib.Case, cs c18case, res *vlib.Result) {
 	cfg["schedule"] = sch
 	if cs.Kube {
 		cfg["kubernetes"] = []any{m{"name": "k1", "apiVersion": "v1", "kind": "ConfigMap", "queue": "q1", "executeHookOnSynchronization": false}}
+	}
+	if cs.Pattern == "startup-syncs" {
+		cfg["kubernetes"] = []any{
+			m{"name": "ka", "apiVersion": "v1", "kind": "ConfigMap"},
+			m{"name": "kb", "apiVersion": "v1", "kind": "ConfigMap", "queue": "q1"},
+			m{"name": "kc", "apiVersion": "v1", "kind": "ConfigMap", "namespace": m{"nameSelector": m{"matchNames": []any{"default"}}}},
+			m{"name": "kd", "apiVersion": "v1", "kind": "ConfigMap", "labelSelector": m{"matchLabels": m{"a": "b"}}},
+		}
 	}
 	if !cs.NoLimit {
 		cfg["settings"] = m{"executionMinInterval": cs.Interval, "executionBurst": float64(cs.Burst)}
@@ -153,6 +168,11 @@ func c18run(c *vlib.Case, cs c18case, res *vlib.Result) {
 			for k := 0; k < 24; k++ {
 				fire(k)
 				time.Sleep(gap)
+			}
+		case "startup-syncs":
+			// nothing is injected: the four Synchronization runs of the start-up are the load
+			for k := 0; k < 8; k++ {
+				sys.Advance(I)
 			}
 		case "failing-retries":
 			fire(0)
